@@ -87,6 +87,7 @@ impl AdapterGuard {
         requires old(stream).ax <= old(stream).adapters@.len(),
         ensures final(stream).ax == old(stream).ax, final(stream).adapters@ == old(stream).adapters@,
             f.r is Ok ==> final(stream).wf(),
+            final(stream).asked@ == old(stream).asked@.push(Asked { base: base@, scope: scope, filter: filter@, attrs: attrs }),
     { unimplemented!() }
     #[verifier::external_body]
     pub fn finish(&mut self, stream: &mut SearchStream) -> (f: AdFinishFut)
@@ -106,7 +107,10 @@ pub struct SearchStream {
     pub ax: usize,
     pub timeout: Option<Duration>,
     pub res: Option<LdapResult>,
+    // ghost: the search arguments this stream handed down, in order (to start_inner or to the next adapter's start)
+    pub asked: Ghost<Seq<Asked>>,
 }
+pub struct Asked { pub base: Seq<char>, pub scope: Scope, pub filter: Seq<char>, pub attrs: A }
 
 pub open spec fn cancelled(r: LdapResult) -> bool { r.rc == 88 && r.refs@.len() == 0 && r.ctrls@.len() == 0 }
 
@@ -125,6 +129,7 @@ impl SearchStream {
             r is Ok ==> final(self).state == StreamState::Active && final(self).rx is Some,
             r is Err ==> final(self).state == old(self).state,
             final(self).ax == old(self).ax, final(self).adapters@ == old(self).adapters@,
+            final(self).asked@ == old(self).asked@.push(Asked { base: base@, scope: scope, filter: filter@, attrs: attrs }),
     { unimplemented!() }
 
 //@lift name=next_inner file=src/search.rs impl="impl<'a, S, A> SearchStream<'a, S, A>" fn=next_inner
@@ -176,6 +181,9 @@ impl SearchStream {
         old(self).state == StreamState::Fresh && r is Err ==> final(self).state == StreamState::Error, //# C10.failed_start_is_error_state
         old(self).state == StreamState::Fresh && old(self).ax == old(self).adapters@.len() && r is Ok ==> final(self).state == StreamState::Active, //# C10.fresh_to_active
         r is Ok ==> final(self).wf(),
+        // the search that is started is the one that was asked for: base, scope, filter and attributes go down unchanged
+        old(self).state == StreamState::Fresh ==> final(self).asked@ == old(self).asked@.push(Asked { base: base@, scope: scope, filter: filter@, attrs: attrs }), //# C02+C10.start_hands_the_search_arguments_down_unchanged
+        old(self).state != StreamState::Fresh ==> final(self).asked@ == old(self).asked@,
 //@end
 
 //@lift name=next file=src/search.rs impl="impl<'a, S, A> SearchStream<'a, S, A>" fn=next
